@@ -2,6 +2,7 @@
 
 import io
 import json
+import re
 
 from pydiffx.errors import (DiffXContentError,
                             DiffXOptionValueChoiceError,
@@ -34,6 +35,9 @@ class DiffXWriter(object):
 
     #: The supported version of the DiffX specification.
     VERSION = SpecVersion.DEFAULT_VERSION
+
+    #: The characters allowed in an option value of a section header.
+    _OPTION_VALUE_RE = re.compile(r'^[A-Za-z0-9/_.-]+\Z')
 
     #: Default indentation to apply to preamble sections.
     DEFAULT_PREAMBLE_INDENT = 4
@@ -557,6 +561,34 @@ class DiffXWriter(object):
             **options (dict):
                 Additional options to provide in the header.
         """
+        # Option values are free-form as far as the caller is concerned
+        # (notably encoding names, where Python accepts spellings such as
+        # "utf 8"), but only a limited set of characters can be represented
+        # in a header. Refuse anything a reader could not parse back.
+        for _key, _value in options.items():
+            if _value is None:
+                continue
+
+            if not self._OPTION_VALUE_RE.match('%s' % (_value,)):
+                raise DiffXOptionValueError(
+                    'The value %r for the "%s" option cannot be written '
+                    'to a section header'
+                    % (_value, _key))
+
+            if isinstance(_value, str):
+                # Readers turn anything that looks like an integer into
+                # one, so a string like this (an encoding name such as
+                # "1252") would not be read back as what was written.
+                try:
+                    int(_value)
+                except ValueError:
+                    pass
+                else:
+                    raise DiffXOptionValueError(
+                        'The value %r for the "%s" option would be read '
+                        'back as an integer'
+                        % (_value, _key))
+
         options_str = ', '.join(
             '%s=%s' % (_key, _value)
             for _key, _value in sorted(options.items(),
